@@ -47,7 +47,11 @@ pub fn digest_line(seed: u64, i: u64) -> String {
         cfg = flacenc::config::Encoder::default();
         cfg.block_size = block;
     }
-    let desc = format!("{} {}ch {}bit len {} block {} [{}] {}", i, channels, bps, len, block, audio.recipe, gen::describe_config(&cfg));
+    // the block-size argument is authoritative; the configuration's own field differs sometimes
+    if i % 9 == 4 {
+        cfg.block_size = if block == 4096 { 1152 } else { 4096 };
+    }
+    let desc = format!("{} {}ch {}bit len {} block {} (cfg field {}) [{}] {}", i, channels, bps, len, block, cfg.block_size, audio.recipe, gen::describe_config(&cfg));
     let ver = match cfg.into_verified() {
         Ok(v) => v,
         Err((_, e)) => return format!("{desc} => CONFIG-REJECTED {e}"),
@@ -58,6 +62,15 @@ pub fn digest_line(seed: u64, i: u64) -> String {
     if i % 11 == 3 {
         src.short_reads = 3;
         src.hint = false;
+    }
+    // a length hint that is off by a few samples (it is a hint), and an end of input signalled by
+    // a bare Ok(0): neither may make the feature sets disagree
+    if i % 13 == 7 {
+        src.hint = true;
+        src.hint_bias = if i % 2 == 0 { 100 } else { -3 };
+    }
+    if i % 5 == 2 {
+        src.bare_eof = true;
     }
     match flacenc::encode_with_fixed_block_size(&ver, src, block) {
         Ok(stream) => {
